@@ -209,6 +209,8 @@ WrittenFromInput(before, after, octets) ==
          lo == CHOOSE i \in ch : \A j \in ch : i <= j
          hi == CHOOSE i \in ch : \A j \in ch : j <= i
      IN ContainsOctets(octets, Concat([ k \in 1 .. (hi - lo + 1) |-> after[tg][lo + k - 1] ]))
+\* reply item of the legacy command 0x0001: version, an unknown word, socket address (network order), dotted-quad text NUL-padded to 16
+EncLegacyItem(x) == EncCPFItem(1, U16(x.version) \o U16(0) \o BE16(x.family) \o BE16(x.port) \o x.addr \o Zeros(8) \o x.text \o Zeros(16 - Len(x.text)))
 RRFrame(sess, ctx, timeout, cip) == EncEnip(CmdSendRR, sess, 0, ctx, 0, EncSendData(timeout, <<NullAddr, UnconnData(cip)>>))
 
 \* total length of the frame starting at offset `at' (0-based) of an octet stream, if its header is complete
